@@ -17,6 +17,9 @@ import ImmuModel.Store.CommitLog
 import ImmuModel.Store.CommitBl
 import ImmuModel.Store.CommitWitness
 import ImmuModel.Store.CommitReload
+import ImmuModel.Store.TruncateRun
+import ImmuModel.Store.TruncateWalk
+import ImmuModel.Store.Proofs.TruncateRunProofs
 
 namespace ImmuModel.Props.C02
 open ImmuModel ImmuModel.Tx ImmuModel.Merkle ImmuModel.Store ImmuModel.Store.Commit
@@ -326,7 +329,90 @@ theorem own_commit_assigns_next_id (hs : Hs D) (z : D) (s : St D) (q : OwnReq D)
             · cases h
             · exact pp _ _ _ _ h
 
+/-! ### values under maintenance: value-log truncation, index maintenance, restart
+
+The theorems above are about the tx log / commit log (`Store/Commit.lean`, which has no value logs).  These are
+about the VALUES: `Store/TruncateRun.lean` runs committers in two phases (`stage` = values appended to a value log,
+no id yet; `commit k` = the k-th staged committer gets the next id — any order) interleaved with
+`TruncateUptoTx(n)` (`Truncate.truncateUpto`, C14's statement-by-statement mirror), index maintenance and restarts.
+No bound on the number of ops, committers in flight, value logs or chunk size. -/
+
+/-- **The values of a committed tx survive every maintenance history.**  From ANY state in which tx `id` is committed
+with entries `tx` and the value of its entry `e` is readable, after ANY sequence of further staged / committing
+committers, truncations, index maintenance and restarts whose cut points are all `≤ id`: tx `id` still has exactly the
+entries `tx` (same value locations, lengths) and the value of `e` is still readable.  (`Placed tx`: the entries were
+written by one `appendValuesIntoAnyVLog` call — holds in every reachable state, `reachable_values_placed`.) -/
+theorem committed_values_survive_maintenance (s : TruncateRun.St) (ops : List TruncateRun.Op) (id : Nat)
+    (tx : Truncate.TxEnts) (e : Truncate.Ent) (h1 : 1 ≤ id) (htx : s.store.txs[id - 1]? = some tx)
+    (hpl : Truncate.Placed tx) (he : e ∈ tx) (hr : s.store.readable e)
+    (hc : ∀ n ∈ TruncateRun.cuts ops, n ≤ id) :
+    (TruncateRun.run s ops).store.txs[id - 1]? = some tx ∧ (TruncateRun.run s ops).store.readable e :=
+  TruncateRunAux.run_keeps ops s id tx e h1 htx hpl he hr hc
+
+/-- In every state reachable from a fresh store, every committed tx and every staged committer satisfies `Placed`. -/
+theorem reachable_values_placed (F io : Nat) (ops : List TruncateRun.Op) :
+    (∀ tx ∈ (TruncateRun.run (TruncateRun.init F io) ops).store.txs, Truncate.Placed tx) ∧
+    (∀ tx ∈ (TruncateRun.run (TruncateRun.init F io) ops).staged, Truncate.Placed tx) :=
+  TruncateRunAux.run_allPlaced ops _ (TruncateRunAux.init_allPlaced F io)
+
+/-- **What was readable when the commit was acknowledged stays readable** (the form the harness checks: record at
+acknowledgement, re-read after every later op).  Any history `ops₁` from a fresh store after which tx `id` is
+committed and the value of its entry `e` readable, any continuation `ops₂` that never cuts above `id`. -/
+theorem acked_values_survive_maintenance (F io : Nat) (ops₁ ops₂ : List TruncateRun.Op) (id : Nat)
+    (tx : Truncate.TxEnts) (e : Truncate.Ent) (h1 : 1 ≤ id)
+    (htx : (TruncateRun.run (TruncateRun.init F io) ops₁).store.txs[id - 1]? = some tx) (he : e ∈ tx)
+    (hr : (TruncateRun.run (TruncateRun.init F io) ops₁).store.readable e)
+    (hc : ∀ n ∈ TruncateRun.cuts ops₂, n ≤ id) :
+    (TruncateRun.run (TruncateRun.init F io) (ops₁ ++ ops₂)).store.txs[id - 1]? = some tx ∧
+    (TruncateRun.run (TruncateRun.init F io) (ops₁ ++ ops₂)).store.readable e := by
+  rw [TruncateRunAux.run_append]
+  exact TruncateRunAux.run_keeps ops₂ _ id tx e h1 htx
+    ((reachable_values_placed F io ops₁).1 tx (List.mem_of_getElem? htx)) he hr hc
+
+/-- **No maintenance history removes or alters a tx-log entry**: the committed txs (with their value locations)
+before any op sequence are a prefix of those after it. -/
+theorem maintenance_keeps_tx_log (s : TruncateRun.St) (ops : List TruncateRun.Op) :
+    s.store.txs <+: (TruncateRun.run s ops).store.txs :=
+  TruncateRunAux.run_txs_prefix ops s
+
+/-- The hypothesis "readable when acknowledged" cannot be dropped on the code as it is (**known finding**, C14's K6 in
+this op language): a committer that has staged its values is invisible to `TruncateUptoTx`.  Chunk size 64: tx 1; A
+stages 50 bytes at 50; B stages at 100 and commits as tx 2; `TruncateUptoTx(2)` removes chunk 0; A commits as tx 3 —
+every cut is `≤ 3`, and its value is unreadable from the moment it is committed. -/
+theorem inflight_values_not_covered :
+    let ops : List TruncateRun.Op :=
+      [.stage 1 [50], .commit 0, .stage 1 [50], .stage 1 [50], .commit 1, .truncate 2, .commit 0]
+    let s := TruncateRun.run (TruncateRun.init 64 1) ops
+    s.store.txs[3 - 1]? = some [⟨1, 50, 50⟩] ∧ (∀ n ∈ TruncateRun.cuts ops, n ≤ 3) ∧
+    ¬ s.store.readable ⟨1, 50, 50⟩ := by
+  decide
+
+/-- **The forward walk must reach the LAST committed tx.**  `truncateUpto` (the code) walks `n … last`; the same
+truncation with the walk ending at `last - 1` (`truncateUptoWalkingTo`, not the code) loses a committed value: tx 1 has
+64 bytes at offset 64, tx 2 — a committer that staged first and got its id last — 64 bytes at offset 0; truncating up
+to 1 answers ok and deletes chunk 0, the value of tx `2 ≥ 1`.  (Harness side: such a store is a correspondence
+mismatch on the surviving chunk files and an oracle failure on the re-read value.) -/
+theorem walk_must_reach_last_committed :
+    let s := Truncate.lateCommitterStore 0
+    s.last = 2 ∧ s.readable ⟨1, 0, 64⟩ ∧
+    (Truncate.truncateUptoWalkingTo s 1 (s.last - 1)).out = .ok ∧
+    ¬ (Truncate.truncateUptoWalkingTo s 1 (s.last - 1)).store.readable ⟨1, 0, 64⟩ ∧
+    (Truncate.truncateUpto s 1).store.readable ⟨1, 0, 64⟩ := by
+  decide
+
 /-! ### non-vacuity -/
+
+/-- The hypotheses of `acked_values_survive_maintenance` are satisfiable by a history with a value-log / id inversion
+and a truncation that really deletes: chunk size 64; tx 1; A stages at 64, B at 128; B commits as tx 2, A as tx 3; tx 4;
+`TruncateUptoTx(2)` removes chunk 0 and keeps chunk 1 for tx 3. -/
+example :
+    let ops : List TruncateRun.Op :=
+      [.stage 1 [64], .commit 0, .stage 1 [64], .stage 1 [64], .commit 1, .commit 0, .stage 1 [10], .commit 0,
+       .indexMaint, .truncate 2, .reopen]
+    let s := TruncateRun.run (TruncateRun.init 64 1) ops
+    (s.store.vlogs 1).present = [1, 2, 3] ∧ s.store.txs[3 - 1]? = some [⟨1, 64, 64⟩] ∧
+    s.store.readable ⟨1, 64, 64⟩ := by
+  decide
 
 /-- The invariant is satisfiable … -/
 example (hs : Hs D) (cfg : Cfg) : Inv hs (init hs cfg false) := init_inv hs cfg false
